@@ -338,20 +338,36 @@ Section Decisions.
   Lemma route_applies_project_manifest (r : route) (c : config) (project : option (manifest vreq)) (path : list string) (f : nfile) :
     route_decision vreq ver sat r c project None path f
     = decision c (match project with Some m => module_policy vreq m path | None => None end) f.
-  Proof. destruct r; reflexivity. Qed.
+  Proof.
+    destruct r; unfold route_decision, manifest_for;
+      try (destruct avbc_route_project_manifest_wins); destruct project; reflexivity.
+  Qed.
 
-  (* an embedded manifest takes the place of the project manifest for bytecode only *)
-  Lemma avbc_route_embedded_manifest (c : config) (project : option (manifest vreq)) (emb : manifest vreq) (path : list string) (f : nfile) :
-    route_decision vreq ver sat RAvbc c project (Some emb) path f = decision c (module_policy vreq emb path) f.
+  (* read from the source (it is the repair of KF-C11-8): run_avbc_file looks the project manifest up first *)
+  Lemma project_manifest_wins_flag : avbc_route_project_manifest_wins = true.
   Proof. reflexivity. Qed.
 
-  (* hence: a capability the configuration denies, listed by the manifest entry, refuses on every route *)
-  Lemma denied_capability_refuses_on_every_route (r : route) (c : config) (m : manifest vreq) (p : policy)
-        (path : list string) (f : nfile) (cap : string) :
-    module_policy vreq m path = Some p -> In cap (p_caps p) -> In cap (denied c) ->
-    exists bad, route_decision vreq ver sat r c (Some m) None path f = [ERefusedCap bad].
+  (* an embedded manifest speaks for bytecode only, and only where no project manifest is *)
+  Lemma avbc_route_embedded_manifest (c : config) (emb : manifest vreq) (path : list string) (f : nfile) :
+    route_decision vreq ver sat RAvbc c None (Some emb) path f = decision c (module_policy vreq emb path) f.
+  Proof. unfold route_decision, manifest_for. rewrite ?project_manifest_wins_flag. reflexivity. Qed.
+
+  (* on every route, whatever manifest the file carries itself, a project manifest that is there decides *)
+  Lemma project_manifest_decides (r : route) (c : config) (m : manifest vreq) (emb : option (manifest vreq))
+        (path : list string) (f : nfile) :
+    route_decision vreq ver sat r c (Some m) emb path f = decision c (module_policy vreq m path) f.
   Proof.
-    intros Hm Hin Hd. rewrite route_applies_project_manifest, Hm. exact (cap_denied_refuses c p f cap Hin Hd).
+    destruct r; unfold route_decision, manifest_for; rewrite ?project_manifest_wins_flag; reflexivity.
+  Qed.
+
+  (* hence: a capability the configuration denies, listed by the project manifest's entry, refuses on every
+     route and under every embedded manifest *)
+  Lemma denied_capability_refuses_on_every_route (r : route) (c : config) (m : manifest vreq) (emb : option (manifest vreq))
+        (p : policy) (path : list string) (f : nfile) (cap : string) :
+    module_policy vreq m path = Some p -> In cap (p_caps p) -> In cap (denied c) ->
+    exists bad, route_decision vreq ver sat r c (Some m) emb path f = [ERefusedCap bad].
+  Proof.
+    intros Hm Hin Hd. rewrite project_manifest_decides, Hm. exact (cap_denied_refuses c p f cap Hin Hd).
   Qed.
 
 End Decisions.
@@ -444,7 +460,7 @@ Definition tables_ok : bool :=
   (match embedded_policy_lookup_keys with k :: r => forallb (String.eqb k) r | [] => false end) &&
   dynamic_policy_key_is_last_segment &&
   empty_capability_list_skips_check && source_route_uses_project_manifest &&
-  aasm_route_uses_project_manifest && avbc_route_falls_back_to_project_manifest &&
+  aasm_route_uses_project_manifest && avbc_route_falls_back_to_project_manifest && avbc_route_project_manifest_wins &&
   (* manifest discovery and embedding: `<file name>.toml` for any entry file, then aelys.toml; compile embeds whatever it found *)
   per_file_manifest_is_filename_dot_toml && directory_manifest_is_aelys_toml && compile_embeds_manifest_whenever_present &&
   (* round-4 repairs: std capability bits govern native modules, the policy lookup tries the dotted key, an unreadable manifest is an error *)
